@@ -647,9 +647,43 @@ fn exec_lookalike(out: &mut CaseOut) {
     }
 }
 
+/// a term inside 1 .. 64 pairs of parentheses (every depth the parser accepts) evaluates like the bare term, on records
+/// and on grids
+fn exec_deepgroups(out: &mut CaseOut) {
+    out.nontrivial = true;
+    out.stat("deepgroups");
+    let mut yes = Dict::new();
+    yes.insert("site".into(), Value::Marker);
+    yes.insert("n".into(), Value::make_int(5));
+    let mut no = Dict::new();
+    no.insert("equip".into(), Value::Marker);
+    let grid = Grid::make_from_dicts(vec![no.clone(), yes.clone(), no.clone(), yes.clone()]);
+    for depth in 1usize..=70 {
+        for inner in ["site", "not site", "n == 5 and site", "site or equip"] {
+            let text = format!("{}{inner}{}", "(".repeat(depth), ")".repeat(depth));
+            let (deep, bare) = match (Filter::try_from(text.as_str()), Filter::try_from(inner)) {
+                (Ok(d), Ok(b)) => (d, b),
+                (Err(_), _) => continue, // deeper than the parser accepts
+                (_, Err(e)) => return out.fail("harness", format!("filter {inner}: {e}")),
+            };
+            for r in [&yes, &no] {
+                if r.filter(&deep) != r.filter(&bare) {
+                    out.fail("eval_spec", format!("`{inner}` inside {depth} pairs of parentheses is {} on {r:?}, the bare term is {}", r.filter(&deep), r.filter(&bare)));
+                }
+            }
+            if grid.filter_all(&deep).len() != grid.filter_all(&bare).len() {
+                out.fail("grid_all", format!("`{inner}` inside {depth} pairs of parentheses selects {} rows, the bare term {}", grid.filter_all(&deep).len(), grid.filter_all(&bare).len()));
+            }
+        }
+    }
+}
+
 pub fn exec(_label: &str, input: &str, out: &mut CaseOut) {
     if input == "lookalike" {
         return exec_lookalike(out);
+    }
+    if input == "deepgroups" {
+        return exec_deepgroups(out);
     }
     if let Some(n) = input.strip_prefix("biggrid ") {
         return exec_biggrid(n.parse().unwrap_or(1027), out);
@@ -1285,6 +1319,12 @@ fn exec_biggrid(n: usize, out: &mut CaseOut) {
         "id == @b and idx > 4".to_string(),
         "id == @a or id == @b".to_string(),
         "id == @zz".to_string(),
+        // matches in several quarters / halves of the grid, the first of them late in its part (whatever divides a large
+        // grid among workers must still hand out the FIRST match)
+        format!("idx >= {}", (n / 4).saturating_sub(1)),
+        format!("idx == {} or idx == {}", (n / 2).saturating_sub(1), n / 2),
+        format!("idx == {} or idx >= {}", (n / 4).saturating_sub(1), n / 2),
+        format!("idx == {} or idx == {} or idx == {}", n / 3, 2 * n / 3, n.saturating_sub(1)),
     ] {
         let filter = match Filter::try_from(text.as_str()) {
             Ok(f) => f,
@@ -1293,7 +1333,18 @@ fn exec_biggrid(n: usize, out: &mut CaseOut) {
         let want: Vec<usize> = grid.rows.iter().enumerate().filter(|(_, r)| r.filter(&filter)).map(|(i, _)| i).collect();
         let index_of = |d: &Dict| grid.rows.iter().position(|r| std::ptr::eq(r, d));
         let all: Vec<Option<usize>> = grid.filter_all(&filter).into_iter().map(|d| index_of(d)).collect();
-        let first = grid.filter(&filter).map(|d| index_of(d));
+        let mut first = grid.filter(&filter).map(|d| index_of(d));
+        // the single-match search several times over (a race between workers shows in some runs only)
+        for _ in 0..6 {
+            let again = grid.filter(&filter).map(|d| index_of(d));
+            if again != first {
+                first = again;
+                break;
+            }
+        }
+        if first != want.first().map(|i| Some(*i)) && want.first().is_some() {
+            // reported below
+        }
         if all != want.iter().map(|i| Some(*i)).collect::<Vec<_>>() {
             out.fail("grid_all", format!("`{text}` on a grid of {n} rows: filter_all returned {} rows (last {:?}), {} rows match (last {:?})", all.len(), all.last(), want.len(), want.last()));
         }
@@ -1305,7 +1356,8 @@ fn exec_biggrid(n: usize, out: &mut CaseOut) {
 
 pub fn generate(ctx: &mut Ctx) {
     ctx.case("lookalike", "lookalike");
-    for n in [3usize, 40, 1000, 1023, 1024, 1025, 1027, 2047, 4099, 10007] {
+    ctx.case("deepgroups", "deepgroups");
+    for n in [3usize, 40, 1000, 1023, 1024, 1025, 1027, 2047, 4096, 4099, 8192, 10007] {
         ctx.case("biggrid", &format!("biggrid {n}"));
     }
     // 1. every single-term filter of the small universe, on every record of it, both ways
